@@ -59,6 +59,14 @@ CLAIMED = {
         "design_ref": "DESIGN.md §8 C10",
         "technique": "Lean 4 theorems (layer merge = concatenation via R4, nearest-file walk) + T1 correspondence on real directory layouts + independent concatenation oracle",
     },
+    "C09": {
+        "text": "Proof (Lean 4): relative to a file-system resolution oracle, a redirect target (and a path argument of a command rule) is normalised to the file it denotes (normalizePath_denotes), hence two spellings "
+        "of the same file get the same redirect-rule verdict for every rule set and cwd (spelling_invariant); for the symlink-free resolution, x/.. detours, . segments, repeated and trailing slashes do not change the file "
+        "(four lemmas by induction over segment lists); a target granted by allow-redirect D/** denotes a file under D/ (confined, via a model of the regex _glob_to_regex builds); inside ** patterns * and ? never consume '/'. "
+        "Tied to config.py by differential runs with every Path.resolve answer recorded; failing-input search in a real scratch tree with symlinks (realpath-equal spellings, confinement).",
+        "design_ref": "DESIGN.md §8 C09",
+        "technique": "Lean 4 theorems (denotation spec vs normalisation, lexical resolution lemmas, ** regex model) + T1 correspondence with recorded pathlib answers + realpath-based failing-input search",
+    },
 }
 
 PENDING_REASON = "check not built yet in this round (DESIGN.md §10 build order); no technique other than Lean proof + correspondence is substituted"
